@@ -103,6 +103,16 @@ DESC = {
  'C19-A6': "save by `'\\n'.join(lines)` with a terminator only if the text does not already end in a newline: a trailing empty train is lost",
  'C19-B6': "time-series import split by `np.bincount(rows)` without `minlength`: trailing all-zero rows are dropped",
  'C20-A6': "two-train fast path of `merge_spike_trains` ranks both trains with `searchsorted(side='left')`: a shared spike time loses one copy",
+ 'C05-A7': "fast path in the constant add for very unequal operands (`np.insert`) duplicates the wrong piece; needs a partial sum of > 48 breakpoints meeting a short pair profile (a train of > 100 spikes among short ones)",
+ 'C05-B7': "new feature: ndarray `interval` accepted by `avrg`/`integral`, implemented with `np.interp` on a cumulative integral - exact for constant, wrong for linear pieces; needs an ndarray interval (rejected by the pinned tree)",
+ 'C09-A7': "constant add returns the operand's own arrays when the receiver is a single zero piece: later in-place scaling of either changes the other",
+ 'C09-B7': "linear add skips a single-piece operand whose average is 0: a ramp from -c to +c is dropped",
+ 'C12-A7': "nearest-spike walk of the Python kernel made recursive: RecursionError for ~1000 spikes of the other train inside a silent stretch (SCALE: not caught)",
+ 'C12-B7': "module-level scratch rows of the Python kernels grown by one doubling only: IndexError for a pair with > 2048 events in a fresh process (SCALE: not caught)",
+ 'C13-A7': "`spike_trains[:] = reconcile_spike_trains(spike_trains)` in the matrix helper: the caller's LIST now holds the reconciled trains",
+ 'C13-B7': "reconcile de-duplicates on the int64 bit patterns of the doubles: negative times come out in decreasing order; needs >= 2 negative spike times",
+ 'C19-A7': "save writes each line in blocks of 512 spikes without a separator between blocks; needs a train of > 512 spikes; the file then fails to load",
+ 'C19-B7': "comment lines recognised by an unescaped regex built from the marker: metacharacter markers (`*`, `.`, `|`, `$`) raise or drop data lines",
  'C20-B6': "PSTH bin index computed as `int((t - t_start)/width)` without re-checking against the reported edges: a spike next to an interior edge lands in the neighbouring bin",
 }
 
